@@ -21,6 +21,7 @@ func init() {
 		Rule: "seeded request sequences of length 1..12 against one in-process handler built as cmd/server/main.go does (NewRepositoryInMemory(0), NewService, MakeHTTPHandler; httptest, no sockets) on 1..3 explicit file IDs (plus IDs the server generates for POST /files/create) over " +
 			"{create NACHA text|JSON, with/without explicit ID, with validateOpts query parameters; get; contents LF|CRLF (X-Line-Ending header); validate GET|POST with options in query and body; build; add/get/list/delete batch; flatten; segment by ID; segment by body (text | JSON wrapper); delete; list}; " +
 			"files are generator files of every SEC (all categories, sometimes non-ASCII), valid or made invalid by a seeded mutation. Reference: per ID the creation request plus the log of later requests that run library code on the stored object (build, contents = Create+write as service.go documents, validate, flatten, segment, add batch, delete batch), replayed through the same library calls into a private copy for every comparison; after a Flatten of a file with equal batch numbers (whose outcome depends on map order) the ID is not compared any more. " +
+			"A second phase (source untouched) stores multi-batch files with recurring headers or a deleted middle batch and requires that flatten / segment / get / validate leave the contents and the validity of the source ID as they were. " +
 			"After every request the response is compared (status class; JSON decoded and re-encoded; Flatten/Segment output with ids and creation stamps masked) and every base ID is probed with GET. " +
 			"Not compared (property silent): anything about an ID after a create whose body the library rejects, until that ID is deleted (its state is 'unknown'); error texts other than validate's; status codes beyond success/failure except 404 for GET of a deleted/never created ID; " +
 			"the status of list-batches on a missing file; the balance endpoint. distinct = sequence of (request kind, ID slot, file description); non-trivial = at least one compared response on a present file.",
@@ -439,6 +440,7 @@ func run(t *T) {
 		}
 		t.Case(key.String(), fmt.Sprintf("sequence len=%s ids=%d", lenBucket(length), x.nbase), x.checked > 0)
 	}
+	runSourceUntouched(t)
 }
 
 func lenBucket(n int) string {
